@@ -39,8 +39,14 @@ def build(c, key):
     global NAMES
     # a third of the enums name their last variant with a raw identifier (accessors: is_fn, unwrap_fn, ...)
     NAMES = [("Foo", "foo"), ("FooBar", "foo_bar"), ("Ab", "ab")]
-    if vlib.seeded_pick(key, 11, 3) == 0:
+    pick = vlib.seeded_pick(key, 11, 6)
+    if pick == 0:
         NAMES[len(c["vs"]) - 1] = ("r#fn", "fn")
+    elif pick == 1:
+        # underscores are word boundaries, never part of a word: leading, doubled and trailing ones vanish
+        NAMES = [("_Phantom", "phantom"), ("Left__Right", "left_right"), ("Trailing_", "trailing")]
+    elif pick == 2:
+        NAMES = [("Plain_Name", "plain_name"), ("lower", "lower"), ("X", "x")]
     vs = c["vs"]
     has_named = any(v["k"] == "named" for v in vs)
     derives = ["IsVariant", "TryInto"] if has_named else ["IsVariant", "Unwrap", "TryUnwrap", "TryInto"]
@@ -169,7 +175,8 @@ def build(c, key):
 
 def run(chk, tier, seed, replay):
     chk.assumptions += ["field types are two tagged types A, B (optionally a type parameter instantiated with A); variant names "
-                        "Foo, FooBar, Ab (accessor names foo, foo_bar, ab)",
+                        "Foo, FooBar, Ab (accessor names foo, foo_bar, ab), a raw identifier, and names with leading / doubled / "
+                        "trailing / inner underscores, all-lowercase and one-letter names",
                         "named variants are exercised for IsVariant and TryInto only (Unwrap/TryUnwrap document tuple and unit variants)"]
     r = vlib.run_tlc("MC_Variants", f"MC_Variants_{tier}", workers=4, timeout=1800, xmx="4g")
     chk.add_tlc(r, "enums")
